@@ -1,5 +1,5 @@
 (* C17 — HTML state pseudo-classes follow their definitions and partition laws.  Statements only. *)
-From SV Require Import Base Regex Tree IR Lit Inputs Match MatchFacts.
+From SV Require Import Base Regex Tree IR Lit Inputs Match MatchFacts DirFacts.
 
 (* :read-only is compiled as html|*:not(:read-write), :enabled as ...:not(:disabled): the partition laws
    are instances of the complement law of C05 (an element cannot match both L and :not(L)) *)
@@ -27,3 +27,14 @@ Proof.
   intros H1 H2. injection H1 as <-. injection H2 as <-. reflexivity.
 Qed.
 Print Assumptions C17_range_disjoint.
+
+(* every HTML element of a ROOTED document (walking up through HTML ancestors, skipping foreign ones, ends at a root
+   element) has exactly one direction: whenever both questions are answered without an exception, :dir(ltr) and
+   :dir(rtl) give opposite answers.  Holds for every fuel, every bidi classifier, every tree. *)
+Theorem C17_dir_partition : forall bidi cx fuel p a b, reaches_root cx p -> is_html_tag cx p = true ->
+  match_dir bidi cx fuel (Some p) SEL_DIR_LTR = Ok a -> match_dir bidi cx fuel (Some p) SEL_DIR_RTL = Ok b -> a = negb b.
+Proof. exact dir_partition. Qed.
+Print Assumptions C17_dir_partition.
+
+Example C17_rooted_nonvacuous : forall cx p, is_root cx p = true -> reaches_root cx p.
+Proof. intros cx p H. apply RR_root. exact H. Qed.
